@@ -376,3 +376,38 @@ var lastErr atomic.Value
 
 func AtomicOk(n int)      { lastErr.Store(n) }
 func AtomicBad(err error) { lastErr.Store(err) }
+
+// ---- pre-sized with a length, then appended ----
+
+func PresizeOk(m map[int64]bool) []int64 {
+	out := make([]int64, 0, len(m))
+	for k := range m {
+		out = append(out, k)
+	}
+	return out
+}
+
+func PresizeBad(m map[int64]bool) []int64 {
+	out := make([]int64, len(m))
+	for k := range m {
+		out = append(out, k)
+	}
+	return out
+}
+
+// ---- decorator hiding an optional interface ----
+
+type Metastore interface{ Load(id string) string }
+
+type wrapOk struct{ Metastore }
+
+func (w wrapOk) GetRegionSuffix() string { return "" }
+
+type wrapBad struct{ Metastore }
+
+func UseOptional(m Metastore) string {
+	if s, ok := m.(interface{ GetRegionSuffix() string }); ok {
+		return s.GetRegionSuffix()
+	}
+	return ""
+}
